@@ -17,7 +17,7 @@
 
 enum { CLP_EXTENDED = CL_EXEC0, CLP_RESIZE_REFUSED };
 static const char *const class_names[] = { C2_COMMON_CLASS_NAMES, C2_PLANAR_CLASS_NAMES,
-    "resize_extended_into_margin", "resize_refused", NULL };
+    "resize_extended_into_margin", "resize_refused", C2_FAULT_CLASS_NAMES, NULL };
 
 struct plfmt { const char *chroma; int hsub, vsub, mps; };
 struct fmt { const char *name; int macropixel, np; struct plfmt pl[P_MAXPL]; };
@@ -104,7 +104,7 @@ static int op_pic_alloc(struct c2_ctx *c, char *what, size_t wn)
     int X = c2_new_area(c);
     struct ubuf *u = ubuf_pic_alloc(c->planar_mgr, hs, vs);
     snprintf(what, wn, "h%d=pic_alloc(%d,%d)+fill [area a%d]", slot, hs, vs, X);
-    if (!u) { R("  %s -> NULL\n", what); FAIL("C02/domain/pic-alloc", "ubuf_pic_alloc(%d,%d) failed", hs, vs); return -1; }
+    if (!u) { R("  %s -> NULL\n", what); DOMFAIL("C02/domain/pic-alloc", "ubuf_pic_alloc(%d,%d) failed", hs, vs); return -1; }
     struct c2_hnd *h = &c->h[slot];
     c2_planar_init(h, u, X);
     struct pic *p = &pics[slot];
@@ -135,7 +135,7 @@ static int op_pic_dup(struct c2_ctx *c, bool copy, char *what, size_t wn)
         u = ubuf_dup(c->h[s].u);
     }
     R("  %s -> %s\n", what, u ? "ok" : "NULL");
-    if (!u) { FAIL(copy ? "C02/domain/pic-copy" : "C02/domain/dup", "%s fails", what); return -1; }
+    if (!u) { DOMFAIL(copy ? "C02/domain/pic-copy" : "C02/domain/dup", "%s fails", what); return -1; }
     c2_planar_init(&c->h[slot], u, X);
     pics[slot] = pics[s];
     return slot;
@@ -270,6 +270,8 @@ static int run(const uint8_t *tp_, size_t len, struct vp_report *rep, unsigned f
             return vp_internal(rep, "add_plane");
     R("C02/cow_pic config: pool_depth=%d format=%s hprepend=%d happend=%d vprepend=%d vappend=%d align=%d align_hmoffset=%d\n",
       depth, F->name, hprep, happ, vprep, vapp, align, hmoff);
+    c->faultmode = cfg >= 216;          /* (216..255 alias other configurations) */
+    if (c->faultmode) R("  [allocation faults]\n");
     c->hash = vp_hash_mix(c->hash, cfg * 256 + mg);
     if (depth) CL(CL_POOL);
     if (align) CL(CL_ALIGN);
@@ -277,7 +279,8 @@ static int run(const uint8_t *tp_, size_t len, struct vp_report *rep, unsigned f
     int nops = 0;
     while (!tp_done(&c->t) && nops < maxops && !c->ret) {
         nops++;
-        unsigned code = optab[tp_u8(&c->t) % 32];
+        uint8_t opbyte = tp_u8(&c->t);
+        unsigned code = optab[opbyte % 32];
         bool anypic = false, anyblock = false;
         for (int i = 0; i < C2_MAXH; i++) { if (c->h[i].kind == C2_PLANAR) anypic = true; if (c->h[i].kind == C2_BLOCK) anyblock = true; }
         if (c2_nlive(c) == 0) code = P_ALLOC;
@@ -286,6 +289,7 @@ static int run(const uint8_t *tp_, size_t len, struct vp_report *rep, unsigned f
         c->hash = vp_hash_mix(c->hash, code);
         char what[200] = "";
         int hi;
+        c2_fault_begin(c, opbyte);
         switch (code) {
         case P_ALLOC: hi = op_pic_alloc(c, what, sizeof what); break;
         case P_DUP: hi = op_pic_dup(c, false, what, sizeof what); break;
@@ -295,6 +299,7 @@ static int run(const uint8_t *tp_, size_t len, struct vp_report *rep, unsigned f
         case P_REEXPORT: hi = op_reexport(c, what, sizeof what); break;
         default: hi = c2_block_op(c, code, what, sizeof what); break;
         }
+        hi = c2_fault_end(c, hi);
         if (hi >= 0 && !c->ret) c2_check_all(c, what);
     }
     for (int i = 0; i < C2_MAXH; i++) c2_release(c, i);
@@ -303,6 +308,7 @@ static int run(const uint8_t *tp_, size_t len, struct vp_report *rep, unsigned f
 
     rep->case_hash = c->hash;
     rep->classes = c->cl;
+    C2_FAULT_CLASSES(rep, c, 24);
     rep->nontrivial = (c->cl & (1u << CL_REEXPORT)) && (c->cl & ((1u << CL_REFUSED_SHARED) | (1u << CL_PLANAR_REFUSED))) &&
                       (c->cl & (1u << CL_GRANTED_AFTER_FREE));
     return c->ret;
